@@ -302,6 +302,13 @@ package otp
 //@   ensures[val] err == nil ==> view(r) == hexdec(rpad0(upper(bighex(s)), 256))
 //@   ensures[reject] !isdecbig(s) ==> err != nil && r == nil
 
+// numeric question end to end: the helper's output is already 128 bytes, so the zero padding of the Q field in the
+// OCRA message (padr(., 128) in ocm2) is the identity on it: the message carries exactly "hexadecimal text of the
+// decimal question, right-padded with '0' to 256 characters, as bytes" (RFC 6287 section 5.1 / appendix A)
+//@ macro numqhex(s) = rpad0(upper(bighex(s)), 256)
+//@ lemma numq : forall s: seq :: isdecbig(s) && ishex(numqhex(s)) && len(upper(bighex(s))) <= 256 ==>
+//@ |   len(hexdec(numqhex(s))) == 128 && padr(hexdec(numqhex(s)), 128) == hexdec(numqhex(s))
+
 //@ macro hexv(s) = s == "" ? "" : hexdec(s)
 //@ macro hexfield(arg, f) = (arg == "" ==> f == nil) && view(f) == hexv(arg)
 //@ func otp.HexInputToOCRA(counter, challenge, password, sessionInfo, timestamp) (in, err)
